@@ -20,6 +20,7 @@ def parseTags (s : String) : Option (List Tag) :=
 inductive POp where
   | add (t : Tag)
   | clear
+  | nop      -- `z`: some other thread panics while it holds the handle returned by `global_logger()`: no effect on logging
   | log (level : Level) (msg : List Char) (tags : List Tag)
   | wrapped (method path : List Char) (bodyLen : Option Nat) (r : HandlerResult)
 
@@ -27,6 +28,7 @@ def parseOp (s : String) : Option POp :=
   let k := (s.take 1).toString
   let rest := (s.drop 1).toString
   if k == "c" then some .clear
+  else if k == "z" then some .nop
   else if k == "a" then
     match rest.splitOn "=" with
     | [n, v] => do pure (.add ⟨← hexChars n, .str (← hexChars v)⟩)
@@ -62,6 +64,7 @@ def runProgram (sink : Sink) (ops : List POp) : List String × List (Event × Li
     match op with
     | .add t => (tt ++ [t], res, evs)
     | .clear => ([], res, evs)
+    | .nop => (tt, res, evs)
     | .log level msg tags =>
       let e := LoggerModel.log tt level (⟨"msg".toList, .str msg⟩ :: tags)
       let d := deliver sink e
@@ -85,6 +88,7 @@ def worldOps (sink : Sink) (progs : List (List POp)) : List LoggerWorld.Op :=
     match op with
     | .add tag => [LoggerWorld.Op.addTag t tag]
     | .clear => [.clear t]
+    | .nop => []
     | .log level msg tags => [.log t level (⟨"msg".toList, .str msg⟩ :: tags)]
     | .wrapped m p bl r =>
       let (_, level, ctags) := logResponse r
